@@ -15,7 +15,7 @@ EXTENDS Integers, Sequences, FiniteSets, TLC, Wire, Msgs, Admission
 NoH == [k |-> "none", user |-> <<>>]
 H(k, u) == [k |-> k, user |-> u]
 
-Rep(st, fl, msg, nx) == [st |-> st, fl |-> fl, msg |-> msg, anymsg |-> FALSE, args |-> <<>>, anyargs |-> FALSE, anyst |-> FALSE, nx |-> nx, sink |-> FALSE]
+Rep(st, fl, msg, nx) == [st |-> st, fl |-> fl, msg |-> msg, anymsg |-> FALSE, args |-> <<>>, anyargs |-> FALSE, anyst |-> FALSE, nx |-> nx, sink |-> FALSE, via |-> "none"]
 RepAny(st, nx) == [Rep(st, 0, <<>>, nx) EXCEPT !.anymsg = TRUE]
 
 \* ---- configuration view --------------------------------------------------
@@ -24,6 +24,10 @@ EffAuth(u) == IF u.auth.k # "none" THEN u.auth
               ELSE LET gi == { i \in 1..Len(u.groups) : u.groups[i].auth.k # "none" } IN
                    IF gi = {} THEN NoAuth ELSE u.groups[CHOOSE i \in gi : \A j \in gi : i <= j].auth
 EffAcct(u) == u.acct \/ \E i \in 1..Len(u.groups) : u.groups[i].acct
+\* which accounter: the user's own, else that of the first group that has one ("file" = log-backed, "syslog")
+AcctKind(u) == IF u.acct THEN u.acctk
+               ELSE LET gi == { i \in 1..Len(u.groups) : u.groups[i].acct } IN
+                    IF gi = {} THEN "none" ELSE u.groups[CHOOSE i \in gi : \A j \in gi : i <= j].acctk
 \* the user entry a name denotes in a scope: the last entry with that name (later entries overwrite), or none
 UserIdx(cfg, scope, name) == { i \in ScopeUserIdx(cfg, scope) : cfg.users[i].name = name }
 HasUser(cfg, scope, name) == UserIdx(cfg, scope, name) # {}
@@ -104,7 +108,7 @@ AcctEntry(cfg, scope, hdr, b) ==
                         [] k.flags = 8 -> IF hdr.seq = 1 THEN Rep(1, 0, MAcctWatchdog, NoH) ELSE Rep(2, 0, MAcctBadSeq, NoH)
                         [] k.flags = 10 -> IF hdr.seq >= 3 THEN Rep(1, 0, MAcctWatchdogUpd, NoH) ELSE Rep(2, 0, MAcctBadSeq, NoH)
                         [] OTHER -> Rep(2, 0, MAcctBadFlag, NoH)
-             IN [r EXCEPT !.sink = TRUE]
+             IN [r EXCEPT !.sink = TRUE, !.via = AcctKind(TheUser(cfg, scope, k.user))]
 
 \* ---- dispatch: the session's continuation if it has one, else the entry handler by packet type ----
 Handle(cfg, scope, h, hdr, b) ==
